@@ -979,8 +979,11 @@ func (w *worlds) send(entry, path string, hdr map[string]string) (ans answer, pa
 			return ans, nil
 		}
 		ans.status = fmt.Sprintf("code=%d", resp.GetStatus().GetCode())
-		if ok := resp.GetOkResponse(); ok != nil && resp.GetStatus().GetCode() == 0 {
+		// Envoy lets the request pass when the status of the check response is OK, whatever else the response carries
+		if resp.GetStatus().GetCode() == 0 {
 			ans.positive = true
+		}
+		if ok := resp.GetOkResponse(); ok != nil && resp.GetStatus().GetCode() == 0 {
 			for _, h := range ok.GetHeaders() {
 				if strings.EqualFold(h.GetHeader().GetKey(), "X-User") {
 					ans.user = h.GetHeader().GetValue()
